@@ -40,7 +40,18 @@ pub mod log_specification {
         ensures #[trigger] as_str_view::<&str>(s) == s@;
     /// oracle: outcome of parsing a specification string (parser is outside the verifier, C17)
     pub uninterp spec fn parse_result(s: Seq<char>) -> Result<LogSpecification, FlexiLoggerError>;
+    //@ opaque src/log_specification.rs struct ModuleFilter
+    //@   dropattr #[derive
+    /// SHIM (not used by the code as it is): comparing module-filter lists
+    impl PartialEq for ModuleFilter {
+        #[verifier::external_body]
+        fn eq(&self, other: &ModuleFilter) -> (r: bool) ensures r == (*self == *other) { unimplemented!() }
+    }
     impl LogSpecification {
+        pub uninterp spec fn mfs_spec(&self) -> Seq<ModuleFilter>;
+        //@ sig src/log_specification.rs impl LogSpecification / fn module_filters
+        //@   ret r
+        //@   ens r@ == self.mfs_spec()
         pub uninterp spec fn max_level_spec(&self) -> log::LevelFilter;
         //@ sig src/log_specification.rs impl LogSpecification / fn max_level
         //@   ret r
